@@ -359,3 +359,277 @@ SUBS = [
     Sub("thermal_history", run_history, gen=lambda: histories("thermal"), quick=50, thorough=600, shards=6),
     Sub("shared_model", run_history, gen=lambda: histories("shared"), quick=40, thorough=500, shards=6),
 ]
+
+
+# ------------------------------------------------------------------------------------------
+# HyperElastic (dynamic, cached element mass) and Beam (Lagrange connections) histories
+
+
+@st.composite
+def hyper_histories(draw):
+    names = ["param", "rho", "translate", "rotate", "set_coord", "bc", "solve", "solve", "matrices", "replace_mesh"]
+    ops = []
+    for _ in range(draw(st.integers(3, 9))):
+        name = draw(st.sampled_from(names))
+        op = dict(op=name)
+        if name == "param":
+            op.update(value=draw(st.integers(4, 20)) / 2.0)
+        elif name == "rho":
+            op.update(value=draw(st.integers(1, 12)) / 4.0)
+        elif name == "translate":
+            op.update(t=[draw(st.integers(-4, 4)) / 2.0, draw(st.integers(-4, 4)) / 2.0, 0.0])
+        elif name == "rotate":
+            op.update(theta=draw(st.integers(1, 35)) * 10.0 + 3.0, center=[0.0, 0.0, 0.0])
+        elif name == "set_coord":
+            sc = draw(st.sampled_from([0.5, 1.5, 2.0]))
+            op.update(A=[[sc, 0.0], [draw(st.integers(-2, 2)) / 4.0, 1.0]], b=[0.0, 0.0])
+        elif name == "bc":
+            op.update(seed=draw(st.integers(0, 99)))
+        elif name == "replace_mesh":
+            op.update(recipe=_recipe(draw))
+        ops.append(op)
+    return dict(kind="hyperelastic", recipe=_recipe(draw), ops=ops, bc0=draw(st.integers(0, 99)), K=draw(st.integers(4, 20)) / 2.0,
+                dt=draw(st.integers(1, 5)) / 10.0)
+
+
+def _hyper_bc(simu, mesh, coord, seed):
+    simu.Bc_Init()
+    rng = np.random.default_rng(seed)
+    bn = gm.boundary_nodes(mesh)
+    ang = rng.uniform(0, 2 * np.pi)
+    p = coord[bn] @ np.array([np.cos(ang), np.sin(ang), 0.0])
+    fixed = bn[p <= p.min() + 0.35 * (p.max() - p.min())]
+    loaded = bn[p >= p.max() - 0.35 * (p.max() - p.min())]
+    simu.add_dirichlet(fixed, [0.0, 0.0], ["x", "y"])
+    simu.add_surfLoad(loaded, [float(x) for x in np.round(rng.uniform(-0.05, 0.05, 2), 3)], ["x", "y"])
+
+
+def run_hyper_history(case, rec):
+    sig = dict(kind="hyperelastic", elemType=case["recipe"]["elemType"])
+    rec.label("kind:hyperelastic")
+    mesh = gm.build(case["recipe"])
+    if mesh.Nn > 50:
+        raise Inconclusive("mesh too large for a history")
+    mat = Models.HyperElastic.NeoHookean(2, K=case["K"])
+    simu = Simulations.HyperElastic(mesh, mat)
+    simu.Solver_Set_Hyperbolic_Algorithm(case["dt"])
+    slot = Slot(mesh)
+    st8 = dict(K=case["K"], rho=1.0, bc=case["bc0"])
+    _hyper_bc(simu, mesh, slot.coord, st8["bc"])
+    built = False
+    inval = False
+    prev = "init"
+
+    def fresh():
+        m = gm.rebuild(slot.base, slot.coord)
+        f = Simulations.HyperElastic(m, Models.HyperElastic.NeoHookean(2, K=st8["K"]))
+        f.rho = st8["rho"]
+        f.Solver_Set_Hyperbolic_Algorithm(case["dt"])
+        if st8["bc"] is not None:
+            _hyper_bc(f, m, slot.coord, st8["bc"])
+        pt = simu.problemType
+        u, v, a = (np.array(g(pt), float) for g in (simu._Get_u_n, simu._Get_v_n, simu._Get_a_n))
+        if u.size == m.Nn * 2:
+            f._Set_solutions(pt, u, v, a)
+        return f
+
+    for op in case["ops"]:
+        name = op["op"]
+        tag = f"{prev}->{name}"
+        s2 = dict(sig, op=name, prev=prev)
+        if name == "param":
+            mat.K = op["value"]
+            st8["K"] = op["value"]
+        elif name == "rho":
+            simu.rho = op["value"]
+            st8["rho"] = op["value"]
+        elif name == "translate":
+            simu.mesh.Translate(*op["t"])
+            slot.coord = slot.coord + np.array(op["t"], float)
+        elif name == "rotate":
+            simu.mesh.Rotate(op["theta"], (0, 0, 0), (0, 0, 1))
+            slot.coord = slot.coord @ _rodrigues(op["theta"]).T
+        elif name == "set_coord":
+            A3 = np.eye(3)
+            A3[:2, :2] = np.array(op["A"], float)
+            new = slot.coord @ A3.T
+            simu.mesh.coord = new
+            slot.coord = new
+        elif name == "replace_mesh":
+            m2 = gm.build(op["recipe"])
+            if m2.Nn > 50:
+                raise Inconclusive("replacement mesh too large")
+            simu.mesh = m2
+            slot = Slot(m2)
+            st8["bc"] = None
+        elif name == "bc":
+            _hyper_bc(simu, simu.mesh, slot.coord, op["seed"])
+            st8["bc"] = op["seed"]
+        if name in ("translate", "rotate", "set_coord") and st8["bc"] is not None:
+            _hyper_bc(simu, simu.mesh, slot.coord, st8["bc"])  # conditions re-entered in the final configuration
+        if name == "solve":
+            if st8["bc"] is None:
+                prev = name
+                continue
+            F = fresh()
+            try:
+                u1 = np.array(simu.Solve(), float).copy()
+                ok1 = True
+            except Exception as e:
+                if not ("converge" in str(e).lower() or "det(F)" in str(e)):
+                    raise
+                ok1 = False
+            try:
+                u2 = np.array(F.Solve(), float)
+                ok2 = True
+            except Exception as e:
+                if not ("converge" in str(e).lower() or "det(F)" in str(e)):
+                    raise
+                ok2 = False
+            rec.require(ok1 == ok2, "solve_converges_like_fresh", f"after {tag}: live converged={ok1}, fresh converged={ok2}", **s2)
+            if not ok1:
+                raise Inconclusive("load step does not converge (neither does the fresh simulation)")
+            rec.close(u1 - u2, np.abs(u2).max() + 1e-6, 1e-6, "stale_solution", f"after {tag}: dynamic step differs from a freshly built simulation", **s2)
+        # (the tangent system of a Newton simulation only exists inside Solve(): the comparison is made on the
+        # solution of the next step, which goes through K, M and the residual)
+        if name == "solve":
+            built = True
+        if built and name in ("param", "rho", "translate", "rotate", "set_coord", "replace_mesh"):
+            inval = True
+        rec.label("op:" + name)
+        prev = name
+    rec.nontrivial(inval)
+
+
+SUBS.append(Sub("hyperelastic_history", run_hyper_history, gen=hyper_histories, quick=60, thorough=400, shards=6))
+
+
+# ------------------------------------------------------------------------------------------
+# Beam frames: parameters of the members, boundary-condition sets that change the number of Dirichlet dofs
+# while Lagrange connections exist (the size of the system follows them)
+
+from vlib import gen_beam as gb  # noqa: E402
+
+
+@st.composite
+def beam_histories(draw):
+    spec = draw(gb.member_specs(types=("SEG2", "SEG3")))
+    ops = []
+    for _ in range(draw(st.integers(3, 10))):
+        name = draw(st.sampled_from(["E", "v", "rho", "yaxis", "bc", "bc", "solve", "solve", "matrices"]))
+        op = dict(op=name)
+        if name == "E":
+            op.update(which=draw(st.integers(0, 1)), value=draw(st.integers(2, 20)) * 10.0)
+        elif name == "v":
+            op.update(which=draw(st.integers(0, 1)), value=draw(st.integers(0, 4)) / 10.0)
+        elif name == "rho":
+            op.update(value=draw(st.integers(1, 12)) / 4.0)
+        elif name == "yaxis":
+            op.update(which=draw(st.integers(0, 1)), value=[draw(st.integers(-3, 3)) for _ in range(3)])
+        elif name == "bc":
+            op.update(variant=draw(st.integers(0, 3)))
+        ops.append(op)
+    return dict(kind="beam", member=spec, split=draw(st.integers(3, 7)) / 10.0, ops=ops, F=[draw(st.integers(-4, 4)) / 100.0 for _ in range(3)])
+
+
+def _frame(spec, split, params):
+    from EasyFEA import ElemType, Mesher
+    from EasyFEA.Geoms import Line, Point
+
+    dim = spec["dim"]
+    p1 = np.array(spec["p1"], float)
+    d = np.array(spec["d"], float)
+    L = float(np.linalg.norm(d))
+    pm, p2 = p1 + split * d, p1 + d
+    sec = gb._section(spec["b"], spec["h"])
+    beams = []
+    for (a, b, n), pr in zip(((p1, pm, split), (pm, p2, 1 - split)), params):
+        line = Line(Point(*a), Point(*b), L * n / 2)
+        beams.append(Models.Beam.Isotropic(dim, line, sec.copy(), pr["E"], pr["v"], yAxis=tuple(pr["y"])))
+    mesh = Mesher().Mesh_Beams(beams, elemType=ElemType(spec["elemType"]))
+    simu = Simulations.Beam(mesh, Models.Beam.BeamStructure(beams), useTimoshenko=bool(spec["timoshenko"]))
+    c = np.asarray(simu.mesh.coord, float)
+    at = lambda p: np.where(np.linalg.norm(c - p, axis=1) < 1e-9 * (1 + L))[0]  # noqa
+    return simu, beams, (at(p1), at(pm), at(p2))
+
+
+def _frame_bc(simu, nodes, variant, Fg, dim):
+    n1, nm, n2 = nodes
+    unk = simu.Get_unknowns()
+    simu.Bc_Init()
+    simu.add_dirichlet(n1, [0.0] * len(unk), unk)
+    if variant in (0, 2):
+        simu.add_connection_fixed(nm)
+        simu.add_neumann(n2, [float(Fg[i]) for i in range(dim)], unk[:dim])
+        if variant == 2:
+            simu.add_dirichlet(n2, [0.001], [unk[0]])  # one more Dirichlet dof: the system grows by one row
+    else:
+        simu.add_connection_hinged(nm)
+        simu.add_dirichlet(n2, [0.0] * dim, unk[:dim])
+        simu.add_neumann(nm[:1], [float(Fg[i]) for i in range(dim)], unk[:dim])
+        if variant == 3:
+            simu.add_dirichlet(n2, [0.0], [unk[-1]])
+
+
+def run_beam_history(case, rec):
+    spec = case["member"]
+    dim = spec["dim"]
+    sig = dict(kind="beam", dim=dim, timo=bool(spec["timoshenko"]))
+    rec.label(f"kind:beam:{dim}d")
+    y0 = list(spec["yAxis"]) if spec.get("yAxis") else [0.0, 1.0, 0.0]
+    params = [dict(E=spec["E"], v=spec["v"], y=list(y0)), dict(E=spec["E"], v=spec["v"], y=list(y0))]
+    simu, beams, nodes = _frame(spec, case["split"], params)
+    _, _, _, frame = gb.build_member(spec)
+    Fg = frame.T @ np.array(case["F"], float)
+    st8 = dict(rho=1.0, bc=0)
+    _frame_bc(simu, nodes, 0, Fg, dim)
+    built = inval = False
+    prev = "init"
+    d = np.array(spec["d"], float)
+    for op in case["ops"]:
+        name = op["op"]
+        tag = f"{prev}->{name}"
+        s2 = dict(sig, op=name, prev=prev)
+        if name == "E":
+            beams[op["which"]].E = op["value"]
+            params[op["which"]]["E"] = op["value"]
+        elif name == "v":
+            beams[op["which"]].v = op["value"]
+            params[op["which"]]["v"] = op["value"]
+        elif name == "rho":
+            simu.rho = op["value"]
+            st8["rho"] = op["value"]
+        elif name == "yaxis":
+            y = np.array(op["value"], float)
+            if dim == 2 or np.linalg.norm(np.cross(y, d)) < 1e-6:
+                prev = name
+                continue
+            beams[op["which"]].yAxis = tuple(y)
+            params[op["which"]]["y"] = list(y)
+        elif name == "bc":
+            _frame_bc(simu, nodes, op["variant"], Fg, dim)
+            st8["bc"] = op["variant"]
+        f, fb, fn = _frame(spec, case["split"], params)
+        f.rho = st8["rho"]
+        _frame_bc(f, fn, st8["bc"], Fg, dim)
+        if name == "solve":
+            u1 = np.array(simu.Solve(), float).copy()
+            u2 = np.array(f.Solve(), float)
+            rec.require(u1.shape == u2.shape, "solution_shape", f"after {tag}: {u1.shape} vs {u2.shape}", **s2)
+            if not np.all(np.isfinite(u2)):
+                raise Inconclusive("ill-posed frame")
+            rec.close(u1 - u2, np.abs(u2).max() + 1e-9, 1e-7, "stale_solution", f"after {tag}: frame solution differs from a freshly built simulation", **s2)
+        A, B = simu.Get_K_C_M_F(), f.Get_K_C_M_F()
+        for nm_, a, b in zip("KCMF", A, B):
+            a, b = orc.dense(a), orc.dense(b)
+            rec.require(a.shape == b.shape, "matrix_shape", f"after {tag}: {nm_} has shape {a.shape}, a fresh simulation {b.shape}", **s2)
+            rec.close(a - b, max(np.abs(b).max(), 1e-9), 1e-11, "stale_" + nm_, f"after {tag}: {nm_} differs from a freshly built simulation", **s2)
+        if built and name in ("E", "v", "rho", "yaxis", "bc"):
+            inval = True
+        built = True
+        rec.label("op:" + name)
+        prev = name
+    rec.nontrivial(inval)
+
+
+SUBS.append(Sub("beam_history", run_beam_history, gen=beam_histories, quick=40, thorough=500, shards=6))
